@@ -83,7 +83,7 @@
       NO pinned statement above changed textually ([conforms] is referenced by name; all were
       re-proved: [C14_conforms] via [C14_model_copy_is_copy]).  New at the end of this file:
       [C14_model_copy_is_copy], [C14_repeat_needs_copy], [C14_repeat_needs_copy_tokens],
-      [C14_repeat_examples].
+      [C14_repeat_examples], [C14_copy_tyb_iff], [C14_copy_ty_fuel].
 
     Determinism: [example_rust] is a Gallina function of (r, s, id, ws). *)
 From Coq Require Import List NArith ZArith String.
@@ -93,6 +93,7 @@ From V Require Import Base.Result Model.Registry Model.Settings Model.RngWords M
   Proofs.ConformsExamples.
 (* [Require] without [Import]: the names of the pinned statements above keep their meaning; the
    statements added at the end of this file use qualified names *)
+From V Require Proofs.CopyTy.
 From V Require Model.Emit Checkers.Parse Model.Unparse Corr.RunTG Corr.RunC14
   Proofs.ConformsTokens Proofs.ConformsTokensExamples Proofs.ConformsCase.
 Import ListNotations.
@@ -554,3 +555,19 @@ Theorem C14_repeat_examples :
   conforms r ExampleRustProofs.demo_settings [] 6 (rep b) [].
 Proof. exact ConformsTokensExamples.repeat_examples. Qed.
 Print Assumptions C14_repeat_examples.
+
+(** ** [copy_tyb] against its fuel-free reading.  [CopyTy.copy_type r id] (Proofs/CopyTy.v, an
+    inductive predicate): the entry [id] is a primitive other than [str] / an array (any length)
+    whose element is [copy_type] / a tuple all of whose members are / a Compact entry whose inner
+    type is; nothing else.  The boolean with the fuel "number of entries + 1" decides exactly this
+    predicate: out of fuel never refuses a type with a finite derivation, and whatever ANY fuel
+    accepts, the fuel of [copy_tyb] accepts. *)
+Theorem C14_copy_tyb_iff :
+  forall (r : registry) (id : N), copy_tyb r id = true <-> CopyTy.copy_type r id.
+Proof. exact CopyTy.copy_tyb_iff. Qed.
+Print Assumptions C14_copy_tyb_iff.
+
+Theorem C14_copy_ty_fuel :
+  forall (r : registry) (n : nat) (id : N), copy_ty r n id = true -> copy_tyb r id = true.
+Proof. exact CopyTy.copy_ty_fuel. Qed.
+Print Assumptions C14_copy_ty_fuel.
